@@ -541,4 +541,72 @@ theorem shape_Conn_h_671 : Facts.shape_Conn_h_671 = some "80efc4f70dec750d" := b
 theorem shape_Conn_h_CTCP : Facts.shape_Conn_h_CTCP = some "0aedd2d57bd72cb7" := by decide
 
 
+
+/-! ### dependency closures
+
+One obligation per property: the hash over (name, normalised-body fingerprint) of every function, variable, constant and type of
+the client and state packages that the property's root functions can reach through a conservative name-based call graph
+(`harness/cmd/extract/closure.go`; the member lists are in `Facts.golden`). A change anywhere a property's code paths can go
+moves its obligation, however far from the property's anchors it is made. -/
+
+/-- [C01] everything the roots of C01 can reach is as pinned -/
+theorem closure_C01 : Facts.closure_C01 = some "7ef3c0f818b942fa" := by decide
+
+/-- [C02] everything the roots of C02 can reach is as pinned -/
+theorem closure_C02 : Facts.closure_C02 = some "7ef3c0f818b942fa" := by decide
+
+/-- [C03] everything the roots of C03 can reach is as pinned -/
+theorem closure_C03 : Facts.closure_C03 = some "266dfcb7b3d8a9a1" := by decide
+
+/-- [C04] everything the roots of C04 can reach is as pinned -/
+theorem closure_C04 : Facts.closure_C04 = some "7ef3c0f818b942fa" := by decide
+
+/-- [C05] everything the roots of C05 can reach is as pinned -/
+theorem closure_C05 : Facts.closure_C05 = some "7ef3c0f818b942fa" := by decide
+
+/-- [C06] everything the roots of C06 can reach is as pinned -/
+theorem closure_C06 : Facts.closure_C06 = some "266dfcb7b3d8a9a1" := by decide
+
+/-- [C07] everything the roots of C07 can reach is as pinned -/
+theorem closure_C07 : Facts.closure_C07 = some "266dfcb7b3d8a9a1" := by decide
+
+/-- [C08] everything the roots of C08 can reach is as pinned -/
+theorem closure_C08 : Facts.closure_C08 = some "cd25422af0cd77b9" := by decide
+
+/-- [C09] everything the roots of C09 can reach is as pinned -/
+theorem closure_C09 : Facts.closure_C09 = some "5c2fb2fd78c32f4e" := by decide
+
+/-- [C10] everything the roots of C10 can reach is as pinned -/
+theorem closure_C10 : Facts.closure_C10 = some "10bb4214f05d9638" := by decide
+
+/-- [C11] everything the roots of C11 can reach is as pinned -/
+theorem closure_C11 : Facts.closure_C11 = some "9be80203051aeced" := by decide
+
+/-- [C12] everything the roots of C12 can reach is as pinned -/
+theorem closure_C12 : Facts.closure_C12 = some "6d2a0c0ddf39bfc8" := by decide
+
+/-- [C13] everything the roots of C13 can reach is as pinned -/
+theorem closure_C13 : Facts.closure_C13 = some "3c42cadb21de4b72" := by decide
+
+/-- [C14] everything the roots of C14 can reach is as pinned -/
+theorem closure_C14 : Facts.closure_C14 = some "6d2a0c0ddf39bfc8" := by decide
+
+/-- [C15] everything the roots of C15 can reach is as pinned -/
+theorem closure_C15 : Facts.closure_C15 = some "eae4d61ba5f0516e" := by decide
+
+/-- [C16] everything the roots of C16 can reach is as pinned -/
+theorem closure_C16 : Facts.closure_C16 = some "266dfcb7b3d8a9a1" := by decide
+
+/-- [C17] everything the roots of C17 can reach is as pinned -/
+theorem closure_C17 : Facts.closure_C17 = some "39b615ecd2b89530" := by decide
+
+/-- [C18] everything the roots of C18 can reach is as pinned -/
+theorem closure_C18 : Facts.closure_C18 = some "dee347298e14861f" := by decide
+
+/-- [C19] everything the roots of C19 can reach is as pinned -/
+theorem closure_C19 : Facts.closure_C19 = some "27f1ad22f34f5d07" := by decide
+
+/-- [C20] everything the roots of C20 can reach is as pinned -/
+theorem closure_C20 : Facts.closure_C20 = some "266dfcb7b3d8a9a1" := by decide
+
 end FactsCheck
